@@ -361,6 +361,49 @@ def run(ctx):
                 tup = strip_sym(arg_syms(cbs[0])[1])
                 ok = tup[0] == "agg" and len(tup[3]) == 1 and sym_is_call(tup[3][0], "Block<T>::data")
             chk.ob("C05.f", f"{f.path} [callback argument]", ok, "the callback receives exactly block.data()" if ok else "the callback is not handed exactly block.data() once per block", f.loc())
+    # the walk ends only at the end of the chain: every way out of the traversal loop is the `pointer is null` edge
+    for fname in ("data_with", "clear_with"):
+        f = (u.method(BKT, fname) or [None])[0]
+        if not f:
+            continue
+        b = f.body
+        nl = [o for o in atomic_ops(f) if o[0].fn is f and o[1] == "load" and "'next'" in repr(o[2]) and in_cycle(b, o[0].bb)]
+        if len(nl) != 1:
+            chk.unrecognised("C05.f", f"{f.path} [walk to the end of the chain]", f"expected one next.load on the traversal loop, found {len(nl)}", f.loc())
+            continue
+        hb = nl[0][0].bb
+        loop = {x for x in b.reachable(hb) if hb in b.reachable(x)}
+        sy = Sym(f)
+        bad = []
+        n_exit = 0
+        for x in sorted(loop):
+            t = b.term(x)
+            for v in b.succ(x):
+                if v in loop or b.blocks[v].get("cleanup"):
+                    continue
+                n_exit += 1
+                why = "leaves the loop unconditionally"
+                if t["k"] == "switch":
+                    lab = next((l for l, tg in b.switch_edges(x) if tg == v), None)
+                    d = strip_sym(sy.operand(t["discr"]))
+                    neg = False
+                    while d and d[0] == "un" and d[1] == "Not":
+                        d, neg = strip_sym(d[2]), not neg
+                    if d and d[0] == "discr":
+                        d = strip_sym(d[1])
+                    if sym_is_call(d, "is_null") and t.get("dty") == "bool":
+                        vals = [a["v"] for a in t["arms"]]
+                        truth = (not bool(vals[0]) if len(vals) == 1 else None) if lab == "otherwise" else bool(lab)
+                        if truth is not None and (truth != neg):
+                            continue
+                        why = "leaves the loop while the block pointer is not null"
+                    elif sym_is_call(d, "as_ref") and (lab == "None" or (lab == "otherwise" and {a.get("variant") for a in t["arms"]} == {"Some"})):
+                        continue
+                    else:
+                        why = f"leaves the loop on a condition other than the end of the chain ({sym_str(d)[:60]})"
+                bad.append((x, why))
+        ok = n_exit > 0 and not bad
+        chk.ob("C05.f", f"{f.path} [walk to the end of the chain]", ok, f"{n_exit} way(s) out of the traversal loop, each on `block pointer is null`" if ok else f"the traversal {bad[0][1] if bad else 'has no exit'}: older blocks of the chain are skipped — a snapshot misses completed pushes, a clear drops the detached values for good", f"{f.file}:{b.blocks[bad[0][0]].get('ln', f.line) if bad else f.line}")
     rec = [f for f in u.fns if f.name == "record" and "AtomicBucket<f64>" in f.j.get("impl_self", "") and (f.j.get("impl_trait") or "").endswith("HistogramFn")]
     if len(rec) == 1:
         cs = [c for c in nonforeign_calls(rec[0]) if c.is_("AtomicBucket<T>::push")]
